@@ -455,3 +455,8 @@ m("benign-commit-inner-helper-c14", "C14", "nomt/src/lib.rs",
   "    pub fn commit<T: HashAlgorithm>(self, nomt: &Nomt<T>) -> Result<(), anyhow::Error> {\n        let _write_guard = self.take_global_guard.then(|| nomt.access_lock.write());\n\n        {",
   "    pub fn commit<T: HashAlgorithm>(self, nomt: &Nomt<T>) -> Result<(), anyhow::Error> {\n        let _write_guard = self.take_global_guard.then(|| nomt.access_lock.write());\n        self.commit_locked(nomt)\n    }\n\n    fn commit_locked<T: HashAlgorithm>(self, nomt: &Nomt<T>) -> Result<(), anyhow::Error> {\n        {",
   None)
+
+m("c14-completion-error-to-ok", "C14", "nomt/src/io/linux.rs",
+  "                    IoKindResult::Err => Err(std::io::Error::from_raw_os_error(io_uring_res.abs())),",
+  "                    IoKindResult::Err => {\n                        eprintln!(\"io error {}\", io_uring_res);\n                        Ok(())\n                    }",
+  "R6|")
